@@ -349,7 +349,8 @@ ASSUME = ['real MongoDB cursor / replace semantics are not exhibited; the semant
 
 
 def main(argv):
-    return run_check('C19', [DocStream(), MeaningStream()], argv, trusted_base=TRUSTED, assumptions=ASSUME)
+    return run_check('C19', [DocStream(), MeaningStream()], argv, trusted_base=TRUSTED, assumptions=ASSUME,
+                     translated=('pin_mongo',))
 
 
 if __name__ == '__main__':
